@@ -16,6 +16,9 @@ pub const NAMES: &[&str] = &[
     "\u{65e5}\u{672c}", "\u{1F600}", "a\u{1F600}", "\u{FFFD}\u{FFFD}", "\u{E000}b", "\u{FF41}", "\u{FF21}",
     "Storage 1", "stream.bin", "name_of_exactly_31_utf16_units_",
     "\u{1}CompObj", "\u{5}Summary", "Z", "z", "zZ", "Zz0", "k\u{212a}", "K", "\u{212a}",
+    // ASCII characters between 'Z' and 'a' (0x5B-0x60): they sort above every letter under
+    // upper-casing and below the lower-case letters under lower-casing
+    "_a", "a_", "[b", "]b", "^b", "`b", "B_", "b^", "__SRP_0", "Module1", "_VBA_PR", "ThisWor", "{c", "~c", "@c",
 ];
 
 /// Invalid names (C09 / C10 refusal classes).
